@@ -81,9 +81,9 @@ func (l vLine) render() string {
 		}
 		return l.L.Indent + l.L.Dash + name + sep + num + l.L.Trail + eol
 	case vkNote:
-		return l.L.Indent + "# " + l.Name + ": " + l.Text + l.L.Trail + eol
+		return l.L.Indent + l.L.Dash + "# " + l.Name + ": " + l.Text + l.L.Trail + eol
 	case vkTNote:
-		return l.L.Indent + "# " + l.Text + l.L.Trail + eol
+		return l.L.Indent + l.L.Dash + "# " + l.Text + l.L.Trail + eol
 	case vkComment:
 		return "#" + l.Text + eol
 	case vkBlank:
@@ -190,7 +190,10 @@ var (
 	vEdgeOther   = []rune("אבגשעبتثकखगกขด")
 	vInnerWild   = []string{" ", "  ", "/", ".", "_", "'", "(", ")", "%", "+", "&", ",", "\"", ":", "-", "#", "=", ", ", ": ", " - ", " #", "\\", "\": ", "\\ ", "…", "’", "‘", " 2 #", " 12 #", "\t", "\t "}
 	vInnerTame   = []string{" ", "/", ".", "_", "-", "'", "&", "+", "%", "(", ")", ",", "<", ">", ";", "…", "  ", "’", "‘"}
-	vEdgeClasses = [][]rune{vEdgeASCII, vEdgeASCII, vEdgeASCII, vEdgeDigits, vEdgeCyr, vEdgeGreek, vEdgeCJK, vEdgeLatin, vEdgeOther, vEdgeLowByte()}
+	// the top of the basic plane (lead byte EF: halfwidth and fullwidth forms, compatibility ideographs, ligatures,
+	// private use) and characters beyond it (four bytes)
+	vEdgeHigh    = []rune("ｶﾛﾘｰＡｚ１豈ﬁ\uE000\uF8FF\uFFFD𝒳🍎𠀋")
+	vEdgeClasses = [][]rune{vEdgeASCII, vEdgeASCII, vEdgeASCII, vEdgeDigits, vEdgeCyr, vEdgeGreek, vEdgeCJK, vEdgeLatin, vEdgeOther, vEdgeLowByte(), vEdgeHigh}
 )
 
 // vEdgeLowByte: letters whose code point ends in the byte of a character the format gives a meaning to (tab, newline,
@@ -510,11 +513,19 @@ func vGenNoteLayout(t *rapid.T, o vLayoutOpts, label string) vLayout {
 	if o.Plain {
 		return vLayout{Indent: "  ", EOL: "\n"}
 	}
-	return vLayout{
+	l := vLayout{
 		Indent: vIndents[rapid.IntRange(0, len(vIndents)-1).Draw(t, label+".indent")],
 		Trail:  []string{"", "", " "}[rapid.IntRange(0, 2).Draw(t, label+".trail")],
 		EOL:    vGenEOL(t, o, label),
 	}
+	if rapid.IntRange(0, 5).Draw(t, label+".dash") == 0 {
+		// a note written as a list item, like the entries around it ("- # weight: 81"): still a note
+		l.Dash = []string{"- ", "-\t", "-  ", "-"}[rapid.IntRange(0, 3).Draw(t, label+".dashv")]
+		if rapid.IntRange(0, 3).Draw(t, label+".col0") == 0 {
+			l.Indent = ""
+		}
+	}
+	return l
 }
 
 var vNoteWords = []string{"barcode", "boiling time", "12 min", "0000000000000", "source", "label", "see page 3", "вкусно", "brand X", "a-b", "x.y", "n/a", "50%", "home made", "20% of the budget", "at 7", "12h30"}
